@@ -632,7 +632,11 @@ class Ref(object):
     free_min = free - self.inflight
     if bid == W.NO_BUFFER:
       if d["data"] != frame:
-        self.dev("C18", "packet-in/unbuffered-truncated", "unbuffered "
+        # (what goes to the controller without a buffer behind it is the
+        # only copy there is: also an emission -- C12's business -- when an
+        # output:CONTROLLER action sent it)
+        self.dev(("C18", "C12") if reason == W.R_ACTION else "C18",
+                 "packet-in/unbuffered-truncated", "unbuffered "
                  "packet_in carries %d of %d bytes" % (len(d["data"]),
                                                        len(frame)))
       if free_min > 0 and len(frame) > limit:
